@@ -399,7 +399,7 @@ Definition tgt_of (h : Ptr) : target :=
 Definition wc_of (h : Ptr) : Z := DataSize (p_size h) / 8 + PointerCount (p_size h).
 Definition shape_ok (h : Ptr) : Prop :=
   match p_kind h with
-  | KStruct => os_wf (p_size h) /\ p_comp h = false
+  | KStruct => os_wf (p_size h) /\ p_comp h = false /\ p_len h = 0 /\ p_bit h = false
   | KList => 0 <= p_len h < 536870912 /\
              (p_comp h = false /\
               (p_bit h = true /\ p_size h = mkOS 0 0 \/
@@ -480,7 +480,7 @@ Proof.
   intros Hv (Hs & Hseg & Hin & Hoff) Htag Hnz. unfold raw_of, tgt_of, obj_reg, obj_bytes, shape_ok in *.
   destruct (p_kind h) eqn:EK.
   - (* struct *)
-    specialize (Hnz eq_refl). destruct Hs as [Hs Hcomp]. unfold obj_start in *. rewrite Hcomp in *.
+    specialize (Hnz eq_refl). destruct Hs as (Hs & Hcomp & _). unfold obj_start in *. rewrite Hcomp in *.
     destruct (fields_struct (p_size h) Hs) as (raw & E & R0 & R1 & R2 & R3 & R4 & R5).
     exists raw. rewrite E. cbn [of_opt_panic]. split; [reflexivity|].
     destruct Hs as (Hd & Hm & Hp).
@@ -669,7 +669,7 @@ Proof.
   intros Hv (Hs & Hseg & Hin & Hoff) Hq.
   destruct (p_kind h) eqn:EK.
   - unfold slots, tgt_of, obj_reg, obj_bytes, shape_ok, obj_start in *. rewrite EK in *. cbn [children] in Hq.
-    destruct Hs as ((Hd & Hm & Hp) & Hc). rewrite Hc. apply in_map_iff in Hq. destruct Hq as (a & <- & Ha).
+    destruct Hs as ((Hd & Hm & Hp) & Hc & _). rewrite Hc. apply in_map_iff in Hq. destruct Hq as (a & <- & Ha).
     unfold zseq in Ha. apply in_map_iff in Ha. destruct Ha as (k & <- & Hk). apply in_seq in Hk. cbn [fst snd r_size].
     assert (TS : totalSize (p_size h) = DataSize (p_size h) + 8 * PointerCount (p_size h)) by (unfold totalSize, pointerSize, u32; lia).
     rewrite TS. unfold padToWord, u32. lia.
